@@ -152,6 +152,12 @@ JudgeStream(e) ==
     [] e.cmd = "search" ->
          IF m # n THEN W("out-count", "-")
          ELSE UNION {AddsRule(ins[j], outs[j], SearchAdds(ins[j].res, e.sem), ToString(j)) : j \in 1..n}
+    \* gts split L | gts join | gts repair on a record whose features are forward, contiguous and unique in key
+    \* and qualifiers: the record comes back as it went in
+    [] e.cmd = "split-join-repair" ->
+         IF n # 1 THEN {} ELSE IF m # 1 THEN W("out-count", "-")
+         ELSE (IF outs[1].res = ins[1].res THEN {} ELSE W("pipeline-residues", "-"))
+              \cup (IF FeatsSame(outs[1].feats, ins[1].feats) THEN {} ELSE W("pipeline-table-not-restored", "-"))
     [] e.cmd = "length" ->
          IF e.lines # [j \in 1..n |-> ToString(Len(ins[j].res))] THEN W("length-lines", "-") ELSE {}
     [] OTHER -> W("unknown-command", "-")
